@@ -6,9 +6,9 @@ package rig
 import (
 	"errors"
 	"fmt"
-	"runtime"
 	"io"
 	"net"
+	"runtime"
 	"sync"
 	"sync/atomic"
 	"time"
@@ -41,7 +41,7 @@ type Conn struct {
 	closeOnce sync.Once
 
 	Trace     func(string) // debugging aid: called with a description of every completed operation
-	limitOut  int64 // >=0 when set: after this many bytes written the conn closes or stalls
+	limitOut  int64        // >=0 when set: after this many bytes written the conn closes or stalls
 	limitMode string
 	limited   bool
 	stallCh   chan struct{}
